@@ -62,6 +62,14 @@ CHECKS["C04"] = (
     "DESIGN.md section 5 C04",
 )
 
+CHECKS["C07"] = (
+    "exploration",
+    "differential reference monitor: the five application forms (lazy, into, sequence, transduce, eduction) of every listed function and of comp pipelines vs list-based reference definitions; instrumented inputs count pulls, an instrumented reducing function counts completion calls",
+    "Held (apart from the recorded distinct/bool-number conflation) on 52 function/parameter cases x all inputs to length 4 (thorough 6) over {nil,false,0,1,2,:a} x 5 forms (exhaustive), random pipelines of depth 2-3, and terminating pipelines on inputs of length 4L/8L/infinite with pull and completion counting. Exploration.",
+    "Trusted: the Python reference definitions of the 18 functions; parameters kept in the unambiguous domain; inner partition types not compared; transduce on an empty collection returning init without completion is documented and not judged.",
+    "DESIGN.md section 5 C07",
+)
+
 NOT_BUILT ="check not built yet in this session (design in DESIGN.md section 5); not claimed until its monitor exists and is quiet on the unchanged tree"
 
 
